@@ -27,6 +27,22 @@ def states(ctx, f, split=None, unroll=1, until=None):
             yield q, st
 
 
+def states_init(ctx, f, init, split=None, unroll=1, until=None):
+    """Like states() with an initial State (facts about parameters from the call sites)."""
+    eng = S(ctx)
+    from .walk import Path
+    for p in ctx.X.paths(f, unroll):
+        q = p
+        if until is not None:
+            idx = [i for i, ev in enumerate(p.events) if until(ev)]
+            if not idx:
+                continue
+            q = Path(p.events[: idx[0]], ("cut-at", p.events[idx[0]]))
+        for st in eng.run(f, q, init=init, split=split):
+            ctx.paths_enumerated += 1
+            yield q, st
+
+
 NEG = {"==": "!=", "!=": "==", "<": ">=", "<=": ">", ">": "<=", ">=": "<", "is": "isnot", "isnot": "is",
        "in": "notin", "notin": "in"}
 FLIP = {"<": ">", "<=": ">=", ">": "<", ">=": "<=", "==": "==", "!=": "!="}
